@@ -118,10 +118,13 @@ def scenario(root, slot="", child="", grand="", lay="plain", mode="exec"):
     if P[root][0] == "target":
         text = text + " = a"
     src = wrap(text, wheres(root, child, grand)) if mode == "exec" else text
-    return {"src": layout(src, lay), "mode": mode, "deriv": {"root": root, "slot": slot, "child": child, "grand": grand, "layout": lay, "mode": mode}}
+    text = layout(src, lay)
+    if mode != "eval" and not text.endswith("\n"):
+        text += "\n"  # what Execer does before it calls the parser in exec and single mode
+    return {"src": text, "mode": mode, "deriv": {"root": root, "slot": slot, "child": child, "grand": grand, "layout": lay, "mode": mode}}
 
 
-def universe(tier, rng):
+def universe(tier, rng, streams):
     scns = []
     names = list(P)
     # U1: every production alone, every mode that applies, every layout
@@ -135,7 +138,7 @@ def universe(tier, rng):
             scns.append(scenario(n, mode="single"))
         if kind in ("stmt", "target") and not P[n][2]:
             scns.append(scenario(n, mode="single"))
-    # U2: every (parent, slot, child) nesting
+    # U2: every (parent, slot, child) nesting (the quick tier: a seeded eighth of them)
     u2 = []
     for n in names:
         for s in slots_of(n):
@@ -146,20 +149,20 @@ def universe(tier, rng):
         u2 = rng.sample(u2, len(u2) // 8)
     for n, s, c in u2:
         scns.append(scenario(n, s, c))
-        if P[n][0] == "expr" and not wheres(n, c):
-            if rng.random() < 0.2:
-                scns.append(scenario(n, s, c, mode="eval", lay="no_final_newline"))
-    # U3: depth 3 (sampled) x layouts
-    for _ in range(4000 if tier == "quick" else 150000):
-        n = rng.choice(names)
-        ss = slots_of(n)
-        if not ss:
-            continue
-        s = rng.choice(ss)
-        c = rng.choice([c for c in names if fits(s, c)])
-        cs = slots_of(c)
-        g = rng.choice([g for g in names if fits(cs[0], g)]) if cs else ""
-        scns.append(scenario(n, s, c, g, lay=rng.choice(pygrammar.LAYOUTS)))
+        if P[n][0] == "expr" and not wheres(n, c) and (len(n) + len(c)) % 5 == 0:
+            scns.append(scenario(n, s, c, mode="eval", lay="no_final_newline"))
+    # U3: depth 3 x layouts, from the fixed random streams
+    for srng in streams:
+        for _ in range(4000):
+            n = srng.choice(names)
+            ss = slots_of(n)
+            if not ss:
+                continue
+            s = srng.choice(ss)
+            c = srng.choice([c for c in names if fits(s, c)])
+            cs = slots_of(c)
+            g = srng.choice([g for g in names if fits(cs[0], g)]) if cs else ""
+            scns.append(scenario(n, s, c, g, lay=srng.choice(pygrammar.LAYOUTS)))
     seen, uniq = set(), []
     for s in scns:
         k = (s["src"], s["mode"])
@@ -167,6 +170,66 @@ def universe(tier, rng):
             seen.add(k)
             uniq.append(s)
     return uniq
+
+
+def first_slot(name):
+    ss = slots_of(name) if name else []
+    return ss[0] if ss else ""
+
+
+def explanations(d, known):
+    """The listed findings (ids) that explain a failing derivation - mirrors Explained in PyGrammar.tla."""
+    out = []
+    for role in ("root", "child", "grand"):
+        n = d[role]
+        if n and n in known["prods"]:
+            out.append("C01-prod-" + n)
+        if n and (n, d["layout"], d["mode"]) in known["layouts"]:
+            out.append(f"C01-layout-{n}-{d['layout']}-{d['mode']}")
+    if d["slot"] and (d["root"], d["slot"], d["child"]) in known["pairs"]:
+        out.append(f"C01-pair-{d['root']}-{d['slot']}-{d['child']}")
+    if d["grand"] and (d["child"], first_slot(d["child"]), d["grand"]) in known["pairs"]:
+        out.append(f"C01-pair-{d['child']}-{first_slot(d['child'])}-{d['grand']}")
+    if d["grand"] and (d["root"], d["slot"], d["child"], d["grand"], d["layout"]) in known["triples"]:
+        out.append(f"C01-triple-{d['root']}-{d['slot']}-{d['child']}-{d['grand']}-{d['layout']}")
+    return out
+
+
+def load_known():
+    path = os.path.join(tlc.VERIF, "known_findings_c01.json")
+    known = {"prods": set(), "pairs": set(), "layouts": set(), "triples": set(), "entries": {}}
+    if os.path.exists(path):
+        for f in json.load(open(path))["findings"]:
+            if f["status"] != "open":
+                continue
+            known["entries"][f["id"]] = f
+            k = f["key"]
+            if k["type"] == "prod":
+                known["prods"].add(k["prod"])
+            elif k["type"] == "layout":
+                known["layouts"].add((k["prod"], k["layout"], k["mode"]))
+            elif k["type"] == "pair":
+                known["pairs"].add((k["root"], k["slot"], k["child"]))
+            elif k["type"] == "triple":
+                known["triples"].add((k["root"], k["slot"], k["child"], k["grand"], k["layout"]))
+    return known
+
+
+def known_module(known):
+    def q(x):
+        return '"%s"' % x
+
+    def tup(t):
+        return "<<" + ", ".join(q(x) for x in t) + ">>"
+
+    lines = ["--------------------------- MODULE PyGrammarKnown ---------------------------",
+             "(* GENERATED at check time from the committed known_findings_c01.json (open entries only). *)",
+             "KnownProds == {" + ", ".join(q(x) for x in sorted(known["prods"])) + "}",
+             "KnownLayouts == {" + ", ".join(tup(t) for t in sorted(known["layouts"])) + "}",
+             "KnownPairs == {" + ", ".join(tup(t) for t in sorted(known["pairs"])) + "}",
+             "KnownTriples == {" + ", ".join(tup(t) for t in sorted(known["triples"])) + "}",
+             "============================================================================="]
+    return "\n".join(lines) + "\n"
 
 
 def describe(trace, matched):
@@ -207,6 +270,8 @@ def run(tier, seed, replay=None):
     committed = open(os.path.join(tlc.SPECS, "PyGrammarProds.tla")).read()
     if committed != prods_module():
         raise tlc.TLCError("specs/PyGrammarProds.tla is out of date: run tools/gen_pygrammar.py")
+    known = load_known()
+    tlc.EXTRA_MODULES[:] = [("PyGrammarKnown.tla", known_module(known))]
     cfg_text = open(os.path.join(tlc.SPECS, "PyGrammar.cfg")).read()
     mc = {}
     if replay:
@@ -215,12 +280,9 @@ def run(tier, seed, replay=None):
         scns = [scenario(d["root"], d["slot"], d["child"], d["grand"], d["layout"], d["mode"])]
     else:
         mc = tlc.model_check("PyGrammar", cfg_text=cfg_text, coverage=False, timeout=1800)
-        selftest = {}
-        for dev in findings.open_deviations(PID)[:3]:
-            r = tlc.model_check("PyGrammar", cfg_text=core.set_deviations(cfg_text, [dev]), expect_ok=False, coverage=False, timeout=600)
-            selftest[dev] = r["errors"][:1]
-        res.coverage["deviation_selftest"] = selftest
-        scns = universe(tier, rng)
+        r = tlc.model_check("PyGrammar", cfg_text=core.set_deviations(cfg_text, ["Dev_KnownDerivation"]), expect_ok=not (known["prods"] or known["pairs"]), coverage=False, timeout=1800)
+        res.coverage["deviation_selftest"] = {"Dev_KnownDerivation": r["errors"][:1]}
+        scns = universe(tier, rng, core.streams(tier, seed))
     out = pool.run("pyparse", scns, hooks=False, timeout=3000)
     bad_workers = [t for t in out if "steps" not in t]
     if bad_workers:
@@ -228,6 +290,13 @@ def run(tier, seed, replay=None):
     for t, s in zip(out, scns):
         t["deriv"] = s["deriv"]
     stats = core.validate_with_findings(res, "PyGrammarTrace", out, cfg_text, describe=describe, timeout=3000, project=slim)
+    # one KNOWN-FINDING line per listed entry that explains a failing derivation of this run
+    res.known.pop("C01-known-derivations", None)
+    for t in out:
+        o = t["steps"][0]["obs"]
+        if o["cpy"] and not (o["xsh"] and o["same"] and o["compiles"]):
+            for fid in explanations(t["deriv"], known)[:1]:
+                res.known_finding(fid)
     kinds = {}
     for t in out:
         k = t["steps"][0]["obs"]["kind"]
@@ -242,16 +311,31 @@ def run(tier, seed, replay=None):
         "programs": len(python_ok),
         "disagreements_checked": sum(1 for t in python_ok if t["steps"][0]["obs"]["kind"] != "ok"),
         "distinct_nontrivial": len({(t["src"], t["mode"]) for t in python_ok if t["deriv"]["slot"]}),
-        "rule": f"one case = a derivation of the Python 3.12 grammar tables ({len(P)} named productions: expressions incl. every operator, string prefix and f-string form; assignment targets; simple and compound statements incl. match and type parameters): a production alone (U1, every layout of 14: CRLF, tabs, 2/8-space indents, comments, blank lines, trailing blanks, continuations, form feed ...; exec/eval/single modes), every (parent, slot, child) nesting (U2; an eighth of them, seeded, in the quick tier) and sampled depth-3 nestings x layouts (U3), wrapped in the context its productions need (def / async def / loop / nested def); CPython's ast.parse decides membership (rejected texts are dropped), xonsh's parser - LALR table regenerated from the working tree - must accept, build the same tree after location-free normalisation (strict dump comparison: node kinds, every identifier field, constants, contexts, operators, arity) and the tree must compile; non-trivial = a nesting (not a production alone) CPython accepts; distinct by (text, mode)",
+        "rule": f"one case = a derivation of the Python 3.12 grammar tables ({len(P)} named productions: expressions incl. every operator, string prefix and f-string form; assignment targets; simple and compound statements incl. match and type parameters): a production alone (U1, every layout of 14: CRLF, tabs, 2/8-space indents, comments, blank lines, trailing blanks, continuations, form feed ...; exec/eval/single modes), every (parent, slot, child) nesting (U2; a seeded eighth of them in the quick tier) and depth-3 nestings x layouts from fixed random streams (U3), wrapped in the context its productions need (def / async def / loop / nested def); CPython's ast.parse decides membership (rejected texts are dropped), xonsh's parser - LALR table regenerated from the working tree - must accept, build the same tree after location-free normalisation (node kinds, every identifier field, constants by type and value, contexts, operators, arity and order) and the tree must compile; non-trivial = a nesting (not a production alone) CPython accepts; distinct by (text, mode)",
         "productions": len(P),
         "outcomes": kinds,
+        "listed_findings": {k: len(known[k]) for k in ("prods", "layouts", "pairs", "triples")},
         "trace_validation": stats,
         "exhaustive": tier == "thorough",
     }
     cov.update(res.coverage)
     core.write_evidence(res, "model_checking", cov, assumptions=[
         "CPython 3.12 (the interpreter running the suite) is the oracle for membership and for the tree",
-        "Constant.kind and type_comment are ignored; a sole expression statement returned as Expression in exec mode is wrapped the way Execer.parse wraps it",
+        "absent fields, None and [] are one value; Constant.kind and type_comment are ignored; a sole expression statement returned as Expression in exec mode is wrapped the way Execer.parse wraps it; exec/single input ends with a newline (Execer appends it)",
         "bounded nesting depth 3 and fixed identifier/constant pools",
     ])
+    return finish_c01(res, known)
+
+
+def finish_c01(res, known):
+    """core.finish, with the KNOWN-FINDING lines taken from known_findings_c01.json."""
+    import sys
+    import time
+
+    for fid, n in sorted(res.known.items()):
+        f = known["entries"].get(fid)
+        if f:
+            print(f"KNOWN-FINDING: property={PID} {fid}: {f['what']} (x{n})")
+    res.known = {k: v for k, v in res.known.items() if k not in known["entries"]}
+    sys.stdout.flush()
     return core.finish(res)
